@@ -110,7 +110,7 @@ func vfC13Gen(rt *rapid.T) vfC13Case {
 			default:
 				id = uint32(rapid.IntRange(200000, 200005).Draw(rt, "rm_unknown"))
 			}
-			return vfVecOp{Op: "remove", ID: id}
+			return vfVecOp{Op: "remove", ID: id, Vec: vfGenRemovePayload(rt, g)}
 		case w < 65:
 			return vfVecOp{Op: "flush"}
 		default:
@@ -285,7 +285,7 @@ func vfC13Run(c vfC13Case, ctx *vfCtx) *vfViolation {
 				return vfFail("op %d: Add of an invalid vector succeeded", i)
 			}
 		case "remove":
-			err := idx.Remove(*NewVectorNodeWithID(op.ID, nil))
+			err := idx.Remove(*NewVectorNodeWithID(op.ID, vfCloneF32(op.Vec)))
 			_, isLive := m.live[op.ID]
 			if isLive && err != nil {
 				return vfFail("op %d: Remove(%d) of a live vector failed: %v", i, op.ID, err)
